@@ -10,11 +10,13 @@ from . import common
 _X = dict(p_opt_existing=.4, p_multi_choice=.3)
 # (name, weight, generator options)
 PROFILES = [
-    ('sel', .22, dict(p_incompat=.4)),
+    ('sel', .18, dict(p_incompat=.4)),
     ('sel_con', .12, dict(p_incompat=.3, p_constraint=1.0, n_steps=(5, 12))),
     ('sel_dv', .12, dict(p_incompat=.3, n_dv=(1, 3), p_dv_link=.4)),
     ('conn', .2, dict(p_incompat=.25, n_conn=(1, 1), n_steps=(2, 7), max_sel=3, max_opts=3)),
     ('conn2', .05, dict(p_incompat=.2, n_conn=(2, 2), n_steps=(2, 6), max_sel=2, max_opts=3, p_grp=.2)),
+    ('conn3', .04, dict(p_incompat=.1, n_conn=(3, 3), n_steps=(1, 3), max_sel=1, max_opts=2, p_grp=0., p_excl=.1,
+                        p_conn_cond=.15, max_side=2, max_side_total=3)),
     ('conn_dv', .06, dict(p_incompat=.2, n_conn=(1, 1), n_dv=(1, 2), n_steps=(2, 6), max_sel=3, max_opts=3)),
     ('dup_id', .04, dict(p_incompat=.3, p_dup_id=.6, n_dv=(0, 2))),
     ('shared_option', .06, dict(allow=('shared_option',), p_incompat=.3, p_constraint=.3, **_X)),
@@ -493,10 +495,17 @@ def worker(task, col):
         return
     if task['shard'] == 0:
         for c in common.corpus(prop):
+            n0 = len(col.violations)
             common.guard(col, check_case, prop, c['spec'], col, 'corpus', cap=cap)
+            if c['spec'].get('conn') and len(col.violations) > n0:
+                common.attribute_to_pattern_encoders(col, n0, lambda cc, sp=c['spec']: check_case(prop, sp, cc, 'rerun',
+                                                                                                cap=cap))
     for i in range(task['lo'], task['hi']):
         name, sp = case_spec(prop, task['seed'], i)
+        n0 = len(col.violations)
         common.guard(col, check_case, prop, sp, col, name, cap=cap)
+        if sp.get('conn') and len(col.violations) > n0:
+            common.attribute_to_pattern_encoders(col, n0, lambda c, sp=sp: check_case(prop, sp, c, 'rerun', cap=cap))
 
 
 RULES = {
